@@ -288,7 +288,7 @@ func c16Verifier(r *Run, t *tape.Tape) {
 	verifier := r.verifierFor(k, false)
 	var offered []byte
 	variant := ""
-	switch t.Choose(9, "c16.variant") {
+	switch t.Choose(11, "c16.variant") {
 	case 0:
 		offered, variant = good, "exact"
 	case 1:
@@ -313,6 +313,32 @@ func c16Verifier(r *Run, t *tape.Tape) {
 		offered = append([]byte{}, good...)
 		offered[t.Choose(len(offered), "c16.flip.pos")] ^= 1 << uint(t.Choose(8, "c16.flip.bit"))
 		variant = "bitflip"
+	case 9:
+		// exact length, one half (or both) all zero: r = 0 or s = 0 is never valid
+		offered = append([]byte{}, good...)
+		switch t.Choose(3, "c16.zero.which") {
+		case 0:
+			for i := 0; i < size; i++ {
+				offered[i] = 0
+			}
+		case 1:
+			for i := size; i < 2*size; i++ {
+				offered[i] = 0
+			}
+		default:
+			offered = make([]byte, 2*size)
+		}
+		variant = "zero-half"
+	case 10:
+		// halves equal to the group order or larger
+		offered = append([]byte{}, good...)
+		nb := curve.Params().N.FillBytes(make([]byte, size))
+		if t.Bool(1, 2, "c16.order.which") {
+			copy(offered[:size], nb)
+		} else {
+			copy(offered[size:], nb)
+		}
+		variant = "half-equals-order"
 	default:
 		n := t.Choose(2*size+5, "c16.len")
 		if n <= len(good) {
@@ -326,7 +352,12 @@ func c16Verifier(r *Run, t *tape.Tape) {
 		r.Fired("sig.reencode." + variant)
 	}
 	var err error
-	r.Lib(func() { err = verifier.Verify(content, offered) })
+	r.Steps++
+	if lp := call(func() { err = verifier.Verify(content, offered) }); lp != nil {
+		r.Check()
+		r.Fail("ecdsa-verifier-panics/"+variant+"/"+name, "the verifier panicked (%v, in %s) instead of returning a verification error for a %d-byte %s signature: %x", lp.Value, lp.Frame, len(offered), variant, offered)
+		return
+	}
 	want := refcose.ValidSignature(k.Alg, k.Pub, content, offered)
 	lz := len(rr.Bytes()) < size || len(ss.Bytes()) < size
 	r.Op("VERIFY", "%s alg=%d variant=%s (%dB, canonical %dB) leading-zero=%v -> %s", name, k.Alg, variant, len(offered), 2*size, lz, errTag(err))
